@@ -97,14 +97,15 @@ class NStep(Case):
                               conj(all_eq(ms["obs"][row], st["obs"][row]), eq(val(ms["action"][row]), val(st["action"][row])),
                                    eq(val(ms["reward"][row]), r(j, e)), all_eq(ms["next_obs"][row], no(j, e)), eq(val(ms["done"][row]), d(j, e))),
                               site="MultiStepReplayBuffer.add/1-step-alignment"))
-                if j == 0 and e == 0:
+                if j == 0 and e == 0 and n > 1:        # with n = 1 the first slot is the only slot: nothing to ignore
                     rw, _, _ = nstep_oracle(n, E, j, e, gamma, r, d, no, variant="ignore-first-slot")
                     obs.append(Ob("twin/first-slot-done-ignored", eq(val(st["reward"][row]), rw), expect="sat"))
         return obs
 
 
 def cases(tier):
-    cs = [NStep(2, 1), NStep(3, 1), NStep(3, 2, extra=0), NStep(2, 2), NStep(2, 2, extra=2, cap=3), NStep(2, 1, extra=3, cap=2)]
+    cs = [NStep(2, 1), NStep(3, 1), NStep(3, 2, extra=0), NStep(2, 2), NStep(2, 2, extra=2, cap=3), NStep(2, 1, extra=3, cap=2),
+          NStep(1, 2, extra=1), NStep(1, 1, extra=2, cap=2)]
     if tier == "thorough":
         cs += [NStep(4, 2), NStep(5, 1, extra=2), NStep(3, 3, extra=1), NStep(6, 1, extra=0), NStep(3, 2, extra=3, cap=5), NStep(2, 3, extra=2, cap=4)]
     return cs
